@@ -30,12 +30,15 @@ AcceptedRuns == R.accepted => R.fault # "internal"
 LoaderNeverRaises == R.accepted => ~R.run_raised
 \* malformed: instructions of the accepted program that lack an operand the VM dereferences (POP/PUSH/MOVE/...)
 AcceptedWellFormed == R.accepted => R.malformed = 0
+\* clean: a text known to be well defined (every name has a value before it is read, no operator meets a value of the wrong
+\* kind): there the script cannot be the cause, so a VM stop of any class on it is an internal fault
+CleanRuns == (R.clean /\ R.accepted) => R.fault = ""
 
-Clauses == <<"Finishes", "NoCrash", "TwoOutcomes", "AcceptHasProgram", "RuleRejected", "LoaderNeverRaises", "AcceptedWellFormed", "AcceptedRuns">>
+Clauses == <<"Finishes", "NoCrash", "TwoOutcomes", "AcceptHasProgram", "RuleRejected", "LoaderNeverRaises", "AcceptedWellFormed", "AcceptedRuns", "CleanRuns">>
 Holds(c) == CASE c = "Finishes" -> Finishes [] c = "NoCrash" -> NoCrash [] c = "TwoOutcomes" -> TwoOutcomes
               [] c = "AcceptHasProgram" -> AcceptHasProgram [] c = "RuleRejected" -> RuleRejected
               [] c = "LoaderNeverRaises" -> LoaderNeverRaises [] c = "AcceptedWellFormed" -> AcceptedWellFormed
-              [] c = "AcceptedRuns" -> AcceptedRuns
+              [] c = "AcceptedRuns" -> AcceptedRuns [] c = "CleanRuns" -> CleanRuns
 FirstBroken == IF \E k \in DOMAIN Clauses : ~Holds(Clauses[k])
                THEN Clauses[CHOOSE k \in DOMAIN Clauses : ~Holds(Clauses[k]) /\ \A j \in 1..k - 1 : Holds(Clauses[j])] ELSE ""
 Init == rec \in 1..Len(Batch) /\ st = "run"
